@@ -280,6 +280,18 @@ pub fn object_values(
         // For enums, get values from EnumData
         if let ExoticObject::Enum(ref data) = obj.exotic {
             data.values()
+        } else if let ExoticObject::Array { ref elements } = obj.exotic {
+            // Array elements come first (index order), then other enumerable string properties
+            let mut result: Vec<JsValue> = elements.to_vec();
+            result.extend(
+                obj.properties
+                    .iter()
+                    .filter(|(key, prop)| {
+                        prop.enumerable() && matches!(key, PropertyKey::String(_))
+                    })
+                    .map(|(_, prop)| prop.value.clone()),
+            );
+            result
         } else {
             // Standard object - get from properties
             // Only include enumerable string keys, not symbols
@@ -313,6 +325,22 @@ pub fn object_entries(
         // For enums, get entries from EnumData
         if let ExoticObject::Enum(ref data) = obj.exotic {
             data.entries()
+        } else if let ExoticObject::Array { ref elements } = obj.exotic {
+            // Array elements come first (index order), then other enumerable string properties
+            let mut result: Vec<(String, JsValue)> = elements
+                .iter()
+                .enumerate()
+                .map(|(i, v)| (i.to_string(), v.clone()))
+                .collect();
+            result.extend(
+                obj.properties
+                    .iter()
+                    .filter(|(key, prop)| {
+                        prop.enumerable() && matches!(key, PropertyKey::String(_))
+                    })
+                    .map(|(key, prop)| (key.to_string(), prop.value.clone())),
+            );
+            result
         } else {
             // Standard object - get from properties
             // Only include enumerable string keys, not symbols
